@@ -17,6 +17,7 @@ CONSTANTS
  RandChoices <- MC_RandChoices
  Msgs <- MC_Msgs
  ListOrders <- MC_ListOrders
+ CoordPkps <- MC_CoordPkps
  MaxExtra <- MC_MaxExtra
  EMIT <- MC_EMIT
  BatchAtEnd <- MC_BatchAtEnd
